@@ -1,4 +1,5 @@
 """C06 — after a successful edit the tree is a fixpoint and every insertion round-trips (E4 two-step + E3 read-back)."""
+import itertools
 import cli
 import difftree
 import gen
@@ -25,7 +26,64 @@ def families(tier):
         yield "C10 all pairs", spaces.c10_pairs()
 
 
+def run_id_range_edge(tier, v):
+    """edit -> check -> edit on trees whose IDs end at the top of the range: the run that hands out 4294967295 leaves a lock that says so, and
+    the next run must leave sources and lock exactly as they are."""
+    import os
+    import shutil
+    from vcommon import scratch_dir
+    U32 = 0xFFFFFFFF
+    work = scratch_dir("c06edge")
+    n = 0
+    outcomes = set()
+    for top, missing, lock, structured, split in itertools.product((U32 - 3, U32 - 2, U32 - 1, U32), (0, 1, 2, 3), ("absent", "next", "stale-low", "disabled"),
+                                                                   (False, True), (False, True)):
+        def st(i, ref):
+            if structured:
+                return 'fn f%d() { info!(%sk = %d; "m%d"); }\n' % (i, "ref = %d, " % ref if ref else "", i, i)
+            return 'fn f%d() { info!("%sm%d"); }\n' % (i, "[ref: %d] " % ref if ref else "", i)
+        stmts = [st(0, top - 1 if top > 1 else None), st(1, top)] + [st(2 + i, None) for i in range(missing)]
+        files = {"src/a.rs": "".join(stmts)} if not split else {"src/a.rs": "".join(stmts[:2]), "src/b.rs": "".join(stmts[2:]) or "fn g() {}\n"}
+        proj = os.path.join(work, "p%d" % n)
+        n += 1
+        files["Breadlog.yaml"] = cli.config_yaml("./src", structured=structured, use_cache=(False if lock == "disabled" else None))
+        if lock == "next" and top < U32:
+            files["Breadlog.lock"] = cli.lock_yaml(top + 1)
+        elif lock == "next":
+            files["Breadlog.lock"] = cli.lock_yaml(0)
+        elif lock == "stale-low":
+            files["Breadlog.lock"] = cli.lock_yaml(5)
+        cli.write_tree(proj, files)
+        cfg = os.path.join(proj, "Breadlog.yaml")
+        r1 = cli.run_breadlog(cfg, cwd=work, tmpdir=work, timeout=60)
+        v.count()
+        info = {"top_id": top, "missing": missing, "lock": lock, "structured": structured, "two_files": split}
+        if r1.panicked or r1.signal is not None or r1.timed_out:
+            v.violation("cli-crash:id-range-edge", dict(info, stderr=r1.stderr.decode("utf-8", "replace")[-400:]))
+            continue
+        outcomes.add((r1.exit, lock, missing, top == U32))
+        if r1.exit == 0:
+            s1, l1 = cli.read_tree(os.path.join(proj, "src")), cli.read_lock(os.path.join(proj, "Breadlog.lock"))
+            rc = cli.run_breadlog(cfg, check=True, cwd=work, tmpdir=work, timeout=60)
+            r2 = cli.run_breadlog(cfg, cwd=work, tmpdir=work, timeout=60)
+            s2, l2 = cli.read_tree(os.path.join(proj, "src")), cli.read_lock(os.path.join(proj, "Breadlog.lock"))
+            v.distinct(("edge", top, missing, lock, structured, split))
+            replay = {k if k.startswith("src/") else k: val for k, val in files.items()}
+            if rc.exit != 0:
+                v.violation("check-fails-after-successful-edit:id-range-edge", dict(info, check_exit=rc.exit), replay_files=replay)
+            if r2.exit != 0:
+                v.violation("second-edit-fails:id-range-edge", dict(info, exit=r2.exit, stdout=r2.stdout.decode("utf-8", "replace")[-400:]), replay_files=replay)
+            if s2 != s1:
+                v.violation("second-edit-changes-bytes:id-range-edge", info, replay_files=replay)
+            if l2 != l1:
+                v.violation("second-edit-changes-lock:id-range-edge", dict(info, lock1=l1, lock2=l2), replay_files=replay)
+        shutil.rmtree(proj, ignore_errors=True)
+    v.subspace("ID-range edge: largest existing ID in {2^32-4 .. 2^32-1} x 0..3 unreferenced statements x lock {absent, exact, stale low, disabled} x style x "
+               "{one file, two files}: edit, check, edit", n, exhaustive=True, distinct_first_run_outcomes=len(outcomes))
+
+
 def run(tier, v):
+    run_id_range_edge(tier, v)
     for name, it in families(tier):
         cases, dropped = difftree.prefilter(list(it))
         n = 0
